@@ -417,6 +417,9 @@ def corpus():
                                            {"parents": [0], "tree": t2}, {"parents": [2, 1], "tree": t3}]})
     t4 = [f(".git", b"a-id", b"A2\n"), d("d2", b"d-id"), f("d2/bb", b"b-id", b"B\n", False), l("ll", b"l-id", b"d2")]
     out.append({"kind": "native", "revs": [{"parents": [], "tree": t3}, {"parents": [0], "tree": t4}]})
+    # a symlink renamed from ".git" to a normal name, target unchanged: its blob is never exported (finding)
+    out.append({"kind": "native", "revs": [{"parents": [], "tree": [f("aa", b"a"), l(".git", b"l-id", b"aa")]},
+                                           {"parents": [0], "tree": [f("aa", b"a"), l("ee", b"l-id", b"aa")]}]})
     # pointless commit, revert to an earlier text, exec-only change, empty dir chain, ".git" directory with a file
     out.append({"kind": "native", "revs": [
         {"parents": [], "tree": [f("aa", b"a"), d("dd", b"d"), d("dd/ee", b"e")]},
@@ -758,8 +761,10 @@ def impl(inp):
         if inp["kind"] == "native":
             return _impl_native(inp)
         return _impl_git(inp)
-    except (TypeError, AssertionError, AttributeError) as e:
-        # the two known crash classes (see notes/C35.md); anything else is a driver error
+    except Exception as e:
+        # the known crash classes (see notes/C35.md); anything else is a driver error
+        if type(e).__name__ not in ("TypeError", "AssertionError", "AttributeError", "BzrError"):
+            raise
         import traceback
         tb = traceback.extract_tb(e.__traceback__)
         where = [f.name for f in tb if "/breezy/" in f.filename]
@@ -833,6 +838,21 @@ def _only_banned_changes(inp):
     return False
 
 
+def _symlink_out_of_banned(inp):
+    """C35-banned-symlink-blob-missing: a symlink whose name in the left parent was '.git' gets a normal
+    name without a target change (its blob was never exported and is not exported now)"""
+    for r in inp.get("revs", []):
+        if not r["parents"]:
+            continue
+        base = {bytes(e[1]): e for e in inp["revs"][r["parents"][0]]["tree"]}
+        for e in r["tree"]:
+            b = base.get(bytes(e[1]))
+            if (b is not None and e[2] == "symlink" and b[2] == "symlink" and bytes(e[3]) == bytes(b[3])
+                    and b[0].split("/")[-1] == ".git" and ".git" not in e[0].split("/")):
+                return True
+    return False
+
+
 def oracle(inp, obs):
     if isinstance(obs, Err):
         return "conversion raised " + str(obs)
@@ -892,6 +912,9 @@ def _has_unusual_mode(commits):
 def finding_matches(fid, inp, obs, why):
     if fid == "C35-banned-rename":
         return inp["kind"] == "native" and "incremental tree" in why and _only_banned_changes(inp)
+    if fid == "C35-banned-symlink-blob-missing":
+        return (inp["kind"] == "native" and isinstance(obs, Err) and str(obs).startswith("BzrError:start_write_group")
+                and _symlink_out_of_banned(inp))
     if fid == "C35-fetch-find-source-paths":
         return (inp["kind"] in ("git", "crash") and isinstance(obs, Err) and str(obs).startswith("TypeError")
                 and _all_chars_exist(inp["commits"]))
